@@ -62,6 +62,139 @@ def run(ctx):
                       key='R1|%s|set move pairing' % name)
         ctx.require(n >= 1, 'R1', '%s: element loop not recognised' % name)
 
+    # the two counter functions are symmetric: += get_concurrency() / -= get_concurrency(), unconditionally; the slack is limit - current
+    for nm, op in (('increase_concurrency', '+='), ('decrease_concurrency', '-=')):
+        f = P.fn(ELE + '::' + nm)
+        v = A.view(f)
+        ws = set()
+        npaths = 0
+        for p_ in v.paths(max_visits=1, max_paths=400):
+            if p_.exit in ('noreturn', 'cut', 'throw'):
+                continue
+            npaths += 1
+            seq = []
+            for e in v.path_events(p_):
+                if e.kind == 'assign' and e.lhs[0] == 'field' and e.lhs[2] == cur:
+                    rhs = e.rhs
+                    while rhs[0] in ('cast', 'conv'):
+                        rhs = rhs[2]
+                    seq.append((e.op, rhs[0] == 'call' and rhs[1] == ELE + '::get_concurrency'))
+            ws.add(tuple(seq))
+        ws = sorted(ws)
+        ok = npaths >= 1 and ws == [((op, True),)]
+        ctx.check(ok, 'R1', 'Element::%s: concurrency_current_ %s get_concurrency(), unconditionally' % (nm, op), where(f), 'stores of the counter along the %d normally returning path(s) (operator, amount is get_concurrency()): %s' % (npaths, ws),
+                  key='R1|%s|exact amount' % nm)
+    gs = [f for f in P.fns.values() if f['q'].endswith('Constraint::get_concurrency_slack') and f.get('blocks')]
+    ctx.require(len(gs) >= 1, 'R1', 'Constraint::get_concurrency_slack not found')
+    for f in gs[:1]:
+        v = A.view(f)
+        rets = [e.val for eid in range(len(f['elems'])) for e in v.events_of(eid) if e.kind == 'return' and e.val is not None]
+        diffs = [x for r in rets for x in ex.subterms(r) if x[0] == 'bin' and x[1] == '-']
+        lim = [d for d in diffs if d[2][0] == 'field' and d[2][2].endswith('::concurrency_limit_') and d[3][0] == 'field' and d[3][2] == cur]
+        ctx.check(len(diffs) == 1 and len(lim) == 1, 'R1', 'Constraint::get_concurrency_slack is concurrency_limit_ - concurrency_current_', where(f), 'differences: %s' % [ex.pretty(d) for d in diffs],
+                  key='R1|get_concurrency_slack|limit minus current')
+        big = [x for r in rets for x in ex.subterms(r) if (x[0] == 'call' and isinstance(x[1], str) and x[1].endswith('numeric_limits<int>::max')) or (x[0] == 'int' and x[1] >= 2147483647)]
+        others = [r for r in rets if r[0] in ('int', 'float') and r[1] < 2147483647]
+        ctx.check(len(big) >= 1 and not others, 'R1', 'Constraint::get_concurrency_slack: a negative limit (no limit) is reported as the largest slack', where(f),
+                  'returned values: %s' % [ex.pretty(r) for r in rets], key='R1|get_concurrency_slack|no limit is maximal slack')
+
+    # outside enable_var/disable_var the counter follows the enabledness of the variable: expand counts the element of an enabled variable exactly once (taking the old count
+    # back first when it re-weights an element), var_free gives back one count per element of an enabled variable
+    def pen_truth(a, pol, alias=None):
+        """a branch on the sharing penalty: True = the variable is enabled, False = it is not, None = another test.  alias: locals holding such a test"""
+        if a[0] == 'truthy' and a[1][0] == 'field' and a[1][2] == pen:
+            return pol
+        if a[0] == 'truthy' and alias and a[1] in alias:
+            a2, p2 = alias[a[1]]
+            return pen_truth(a2, pol == p2)
+        if a[0] == 'bin' and a[2][0] == 'field' and a[2][2] == pen and a[3][0] in ('int', 'float') and a[3][1] == 0:
+            if a[1] in ('==', '<='):
+                return not pol
+            if a[1] in ('!=', '>'):
+                return pol
+        return None
+
+    def counter_walk(f):
+        """per feasible normal path: (enabled?, events) with events = ('inc'|'dec'|'test', line); tests after a disable_var call are about another state and dropped"""
+        v = A.view(f)
+        res = []
+        for p_ in v.paths(max_visits=2, max_paths=20000):
+            if p_.exit in ('noreturn', 'cut', 'throw'):
+                continue
+            ctx.count('paths')
+            truths = set()
+            seq = []
+            live = True
+            alias = {}
+            for e in v.path_events(p_):
+                if e.kind == 'assign' and e.lhs[0] == 'var' and live:
+                    try:
+                        a2, p2 = ex.atom(e.rhs)
+                    except Exception:
+                        a2 = None
+                    if a2 is not None and pen_truth(a2, True) is not None:
+                        alias[e.lhs] = (a2, p2)
+                    else:
+                        alias.pop(e.lhs, None)
+                if e.kind == 'branch' and live:
+                    t = pen_truth(e.atom, e.pol, alias)
+                    if t is not None:
+                        truths.add(t)
+                        seq.append(('test' if t else 'ntest', e.line))
+                elif e.kind == 'assign' and e.decl and e.rhs[0] == 'call' and isinstance(e.rhs[1], str) and e.rhs[1].endswith('operator*'):
+                    seq.append(('iter', e.line))
+                elif e.kind == 'call':
+                    if e.q in (SYS + '::expand_add_to_elem', SYS + '::expand_create_elem'):
+                        seq.append((e.q.rsplit('::', 1)[-1], e.line))
+                    if e.q == ELE + '::increase_concurrency':
+                        seq.append(('inc', e.line))
+                    elif e.q == ELE + '::decrease_concurrency':
+                        seq.append(('dec', e.line))
+                    elif e.q == SYS + '::disable_var':
+                        live = False
+            if len(truths) == 2:
+                continue   # the penalty is not written in between: the two tests agree
+            res.append((truths.pop() if truths else None, seq))
+        return res
+    f = P.fn(SYS + '::expand')
+    bad = None
+    npaths = 0
+    for enabled, seq in counter_walk(f):
+        npaths += 1
+        incs = [i for i, x in enumerate(seq) if x[0] == 'inc']
+        decs = [i for i, x in enumerate(seq) if x[0] == 'dec']
+        if enabled is None:
+            bad = bad or ('a path does not test the sharing penalty', seq)
+        elif enabled and not (len(incs) == 1 and len(decs) == (1 if any(x[0] == 'expand_add_to_elem' for x in seq) else 0) and all(d < incs[0] for d in decs)):
+            bad = bad or ('enabled variable, %s element: %d increase(s), %d decrease(s)' % ('re-weighted' if any(x[0] == 'expand_add_to_elem' for x in seq) else 'new', len(incs), len(decs)), seq)
+        elif not enabled and (incs or decs):
+            bad = bad or ('disabled variable: the counter is touched', seq)
+    ctx.require(npaths >= 2, 'R1', 'System::expand: paths not recognised')
+    ctx.check(bad is None, 'R1', 'System::expand: the element of an enabled variable is counted exactly once (an old count is given back first), that of a disabled one never',
+              where(f, bad[1][-1][1] if bad and bad[1] else None), '%s along %s' % bad if bad else '%d feasible normal path(s)' % npaths, key='R1|expand|counter follows enabledness')
+    f = P.fn(SYS + '::var_free')
+    bad = None
+    npaths = 0
+    niter = 0
+    for enabled, seq in counter_walk(f):
+        npaths += 1
+        its = []
+        for x in seq:
+            if x[0] == 'iter':
+                its.append([])
+            elif its:
+                its[-1].append(x[0])
+            elif x[0] in ('inc', 'dec'):
+                bad = bad or ('a counter update outside the element loop', seq)
+        niter += len(its)
+        for it in its:
+            # each element: the positive test directly followed by its decrease, or the negative test and nothing
+            if it not in (['test', 'dec'], ['ntest']):
+                bad = bad or ('one element sees %s' % (it or 'no test of the penalty and no counter update'), seq)
+    ctx.require(npaths >= 2 and niter >= 1, 'R1', 'System::var_free: element loop not recognised')
+    ctx.check(bad is None, 'R1', 'System::var_free: one count is given back per element of an enabled variable, none otherwise', where(f, bad[1][-1][1] if bad and bad[1] else None),
+              '%s' % bad[0] if bad else '%d feasible normal path(s)' % npaths, key='R1|var_free|counter follows enabledness')
+
     # ---- R2 every slot release is followed by on_disabled_var on each constraint of the variable -----------------------------
     ctx.rule('R2', 'every path of a System function that calls disable_var(v) then runs on_disabled_var(e.constraint) for each element e of v before returning', 2)
     sysfns = [f for f in P.methods_of(SYS) if f.get('blocks')]
